@@ -44,10 +44,9 @@ theorem filterMap_map_pairs {α β γ : Type} (l : List (α × β)) (f : α → 
     have h2 := ih (fun e' he' => hp e' (by simp [he']))
     simp only [List.map_cons, List.filterMap_cons, h1, h2]
 
-/-- **`*` on a well-formed heap**: unless the value is an instance of a list / tuple / set
-    subclass that has a `__dict__`, `_extend_children` appends exactly the children -/
+/-- **`*` on a well-formed heap**: `_extend_children` appends exactly the children -/
 theorem extendChildren_eq_children (cs : Classes) (h : Heap) (hw : heapWF cs h = true)
-    (hc : classesWF cs = true) (v : Val) (hq : seqWithDict cs h v = false) :
+    (hc : classesWF cs = true) (v : Val) :
     extendChildren cs h v = children cs h v := by
   cases v with
   | ref a =>
@@ -64,6 +63,8 @@ theorem extendChildren_eq_children (cs : Classes) (h : Heap) (hw : heapWF cs h =
         obtain ⟨hd, hes⟩ := hwo
         unfold extendChildren
         simp only [hcn, Obj.cls, keysH, hd, if_true, getH, keysOf, ho, children]
+        have hk : (KeysH.dictKeys == KeysH.objKeys) = false := by decide
+        simp only [hk, Bool.false_and, Bool.false_eq_true, if_false]
         apply filterMap_map_pairs (f := fun k => k)
         intro e he
         obtain ⟨hh, hl⟩ := hes e he
@@ -74,31 +75,41 @@ theorem extendChildren_eq_children (cs : Classes) (h : Heap) (hw : heapWF cs h =
         · simp only [hb, Bool.false_eq_true, if_false, pyGetitem, ho, hh, if_true, hl]
       | list c xs =>
         simp only [cellOK, Bool.and_eq_true, Bool.not_eq_true'] at hwo
-        have hnd : (clsInfo cs c).hasDict = false := by
-          simpa [seqWithDict, ho] using hq
+        have hit : iterH cs c = true := by simp [iterH, hwo.1]
+        have hg : seqGuard.any (isA cs c) = true := by simp [seqGuard, hwo.1]
         unfold extendChildren
-        simp only [hcn, Obj.cls, keysH, hwo.2, Bool.false_eq_true, if_false, hnd, iterH, hwo.1,
-          Bool.true_or, Bool.or_true, if_true, iterItems, ho, children]
+        simp only [hcn, Obj.cls, hit, if_true, keysH, hwo.2, Bool.false_eq_true, if_false]
+        by_cases hd : (clsInfo cs c).hasDict = true
+        · simp only [hd, if_true, hg, Bool.and_true, beq_self_eq_true, iterItems, ho, children]
+        · simp only [hd, Bool.false_eq_true, if_false, iterItems, ho, children]
       | tuple c xs =>
         simp only [cellOK, Bool.and_eq_true, Bool.not_eq_true'] at hwo
-        have hnd : (clsInfo cs c).hasDict = false := by
-          simpa [seqWithDict, ho] using hq
+        have hit : iterH cs c = true := by simp [iterH, hwo.1.1]
+        have hg : seqGuard.any (isA cs c) = true := by simp [seqGuard, hwo.1.1]
         unfold extendChildren
-        simp only [hcn, Obj.cls, keysH, hwo.1.2, Bool.false_eq_true, if_false, hnd, iterH, hwo.1.1,
-          Bool.true_or, Bool.or_true, if_true, iterItems, ho, children]
+        simp only [hcn, Obj.cls, hit, if_true, keysH, hwo.1.2, Bool.false_eq_true, if_false]
+        by_cases hd : (clsInfo cs c).hasDict = true
+        · simp only [hd, if_true, hg, Bool.and_true, beq_self_eq_true, iterItems, ho, children]
+        · simp only [hd, Bool.false_eq_true, if_false, iterItems, ho, children]
       | set c xs =>
-        simp only [cellOK, Bool.and_eq_true, Bool.not_eq_true'] at hwo
-        have hnd : (clsInfo cs c).hasDict = false := by
-          simpa [seqWithDict, ho] using hq
+        simp only [cellOK, Bool.and_eq_true, Bool.not_eq_true', Bool.or_eq_true] at hwo
+        obtain ⟨⟨⟨⟨hiter, hset⟩, hnd⟩, hnl⟩, hnt⟩ := hwo
+        have hit : iterH cs c = true := by simp [iterH, hiter]
+        have hg : seqGuard.any (isA cs c) = true := by
+          rcases hset with h1 | h1 <;> simp [seqGuard, h1]
         unfold extendChildren
-        simp only [hcn, Obj.cls, keysH, hwo.1.1.2, Bool.false_eq_true, if_false, hnd, iterH, hwo.1.1.1,
-          Bool.or_true, if_true, iterItems, ho, children]
+        simp only [hcn, Obj.cls, hit, if_true, keysH, hnd, Bool.false_eq_true, if_false]
+        by_cases hd : (clsInfo cs c).hasDict = true
+        · simp only [hd, if_true, hg, Bool.and_true, beq_self_eq_true, iterItems, ho, children]
+        · simp only [hd, Bool.false_eq_true, if_false, iterItems, ho, children]
       | inst c as =>
         simp only [cellOK, Bool.and_eq_true, Bool.not_eq_true', List.all_eq_true, beq_iff_eq] at hwo
-        obtain ⟨⟨⟨⟨hhd, hnd⟩, hnl⟩, hnt⟩, has⟩ := hwo
+        obtain ⟨⟨⟨⟨⟨⟨hhd, hnd⟩, hnl⟩, hnt⟩, hns⟩, hnf⟩, has⟩ := hwo
+        have hng : seqGuard.any (isA cs c) = false := by
+          simp [seqGuard, hnl, hnt, hns, hnf]
         unfold extendChildren
         simp only [hcn, Obj.cls, keysH, hnd, Bool.false_eq_true, if_false, hhd, if_true, getH, hnl, hnt,
-          Bool.or_self, keysOf, ho, children]
+          Bool.or_self, keysOf, ho, children, hng, Bool.and_false]
         apply filterMap_map_pairs (f := fun n => Val.str n)
         intro p hp
         have hf := has p hp
@@ -119,5 +130,369 @@ theorem extendChildren_eq_children (cs : Classes) (h : Heap) (hw : heapWF cs h =
   | _ =>
     rw [extendChildren_scalar cs h hc _ (fun a e => by cases e),
       children_scalar cs h _ (fun a e => by cases e)]
+
+/-! ### the `'X'` loop is the breadth-first traversal -/
+
+theorem take_succ_of_lt {α : Type} (l : List α) (i : Nat) (hi : i < l.length) :
+    l.take (i + 1) = l.take i ++ [l[i]] := by
+  induction l generalizing i with
+  | nil => simp at hi
+  | cons x xs ih =>
+    cases i with
+    | zero => rfl
+    | succ n =>
+      have hn : n < xs.length := by simpa using hi
+      show x :: xs.take (n + 1) = x :: (xs.take n ++ [xs[n]])
+      rw [ih n hn]
+
+theorem drop_eq_cons_of_lt {α : Type} (l : List α) (i : Nat) (hi : i < l.length) :
+    l.drop i = l[i] :: l.drop (i + 1) := by
+  induction l generalizing i with
+  | nil => simp at hi
+  | cons x xs ih =>
+    cases i with
+    | zero => rfl
+    | succ n =>
+      have hn : n < xs.length := by simpa using hi
+      show xs.drop n = xs[n] :: xs.drop (n + 1)
+      exact ih n hn
+
+theorem bfs_nil (cs : Classes) (h : Heap) (seen : List Nat) : bfs cs h [] seen = [] := by
+  rw [bfs]
+
+theorem bfs_ref_seen (cs : Classes) (h : Heap) (a : Nat) (q : List Val) (seen : List Nat)
+    (hs : seen.contains a = true) : bfs cs h (.ref a :: q) seen = .ref a :: bfs cs h q seen := by
+  rw [bfs]; simp only [hs, ↓reduceDIte]
+
+theorem bfs_ref_new (cs : Classes) (h : Heap) (a : Nat) (q : List Val) (seen : List Nat)
+    (hs : seen.contains a = false) (ha : a < h.length) :
+    bfs cs h (.ref a :: q) seen = .ref a :: bfs cs h (q ++ children cs h (.ref a)) (a :: seen) := by
+  rw [bfs]; simp only [hs, Bool.false_eq_true, ↓reduceDIte, ha]
+
+theorem bfs_ref_dangling (cs : Classes) (h : Heap) (a : Nat) (q : List Val) (seen : List Nat)
+    (hs : seen.contains a = false) (ha : ¬ a < h.length) :
+    bfs cs h (.ref a :: q) seen = .ref a :: bfs cs h q seen := by
+  rw [bfs]; simp only [hs, Bool.false_eq_true, ↓reduceDIte, ha]
+
+theorem bfs_scalar (cs : Classes) (h : Heap) (v : Val) (q : List Val) (seen : List Nat)
+    (hv : ∀ a, v ≠ .ref a) : bfs cs h (v :: q) seen = v :: bfs cs h q seen := by
+  cases v with
+  | ref a => exact absurd rfl (hv a)
+  | _ => rw [bfs]; intro a e; cases e
+
+/-- the index loop over the growing list computes the queue traversal: what is already walked,
+    followed by the traversal of the rest -/
+theorem ssLoop_eq_bfs (cs : Classes) (h : Heap)
+    (hag : ∀ v, extendChildren cs h v = children cs h v)
+    (nxt : List Val) (i : Nat) (sofar ex : List Nat) :
+    (ssLoop cs h nxt i sofar ex).1 = nxt.take i ++ bfs cs h (nxt.drop i) sofar := by
+  fun_induction ssLoop cs h nxt i sofar ex with
+  | case1 nxt i sofar ex hi a hitem hs ih =>
+    rw [ih, take_succ_of_lt nxt i hi, drop_eq_cons_of_lt nxt i hi, hitem, bfs_ref_seen cs h a _ _ hs]
+    simp
+  | case2 nxt i sofar ex hi a hitem hs ha ih =>
+    have hs' : sofar.contains a = false := by simpa using hs
+    rw [ih, drop_eq_cons_of_lt nxt i hi, hitem, bfs_ref_new cs h a _ _ hs' ha, hag]
+    have h1 : (nxt ++ children cs h (Val.ref a)).take (i + 1) = nxt.take i ++ [Val.ref a] := by
+      rw [List.take_append_of_le_length (by omega), take_succ_of_lt nxt i hi, hitem]
+    have h2 : (nxt ++ children cs h (Val.ref a)).drop (i + 1) =
+        nxt.drop (i + 1) ++ children cs h (Val.ref a) := by
+      rw [List.drop_append_of_le_length (by omega)]
+    rw [h1, h2]; simp
+  | case3 nxt i sofar ex hi a hitem hs ha ih =>
+    have hs' : sofar.contains a = false := by simpa using hs
+    rw [ih, take_succ_of_lt nxt i hi, drop_eq_cons_of_lt nxt i hi, hitem,
+      bfs_ref_dangling cs h a _ _ hs' ha]
+    simp
+  | case4 nxt i sofar ex hi hnr ih =>
+    have hv : ∀ a, nxt[i] ≠ Val.ref a := fun a e => hnr a e
+    rw [ih, take_succ_of_lt nxt i hi, drop_eq_cons_of_lt nxt i hi, bfs_scalar cs h _ _ _ hv,
+      List.append_assoc]
+    rfl
+  | case5 nxt i sofar ex hi =>
+    have : nxt.length ≤ i := by omega
+    rw [List.take_of_length_le this, List.drop_eq_nil_of_le this, bfs_nil]; simp
+
+/-! ### each container is expanded once; what the final list consists of -/
+
+theorem ssLoop_nodup (cs : Classes) (h : Heap) (nxt : List Val) (i : Nat) (sofar ex : List Nat) :
+    (∀ x ∈ ex, sofar.contains x = true) → ex.Nodup → (ssLoop cs h nxt i sofar ex).2.Nodup := by
+  fun_induction ssLoop cs h nxt i sofar ex with
+  | case1 nxt i sofar ex hi a hitem hs ih => exact ih
+  | case2 nxt i sofar ex hi a hitem hs ha ih =>
+    intro hsub hnd
+    apply ih
+    · intro x hx
+      rcases List.mem_append.1 hx with hx | hx
+      · have := hsub x hx; simp only [List.contains_cons, this, Bool.or_true]
+      · simp only [List.mem_singleton] at hx; subst hx; simp
+    · refine List.nodup_append.2 ⟨hnd, by simp, ?_⟩
+      intro x hx y hy
+      simp only [List.mem_singleton] at hy
+      subst hy
+      intro e; subst e
+      exact hs (hsub x hx)
+  | case3 nxt i sofar ex hi a hitem hs ha ih => exact ih
+  | case4 nxt i sofar ex hi hnr ih => exact ih
+  | case5 nxt i sofar ex hi => intro _ hnd; exact hnd
+
+/-- the final `nxt` is the initial one followed by the children of every container expanded by
+    the loop, in expansion order; every expansion is of a heap address not expanded before -/
+theorem ssLoop_structure (cs : Classes) (h : Heap) (nxt : List Val) (i : Nat) (sofar ex : List Nat) :
+    ∃ news : List Nat, (ssLoop cs h nxt i sofar ex).2 = ex ++ news ∧
+      (ssLoop cs h nxt i sofar ex).1 = nxt ++ news.flatMap (fun a => extendChildren cs h (.ref a)) ∧
+      ∀ a ∈ news, a < h.length ∧ sofar.contains a = false := by
+  fun_induction ssLoop cs h nxt i sofar ex with
+  | case1 nxt i sofar ex hi a hitem hs ih => exact ih
+  | case2 nxt i sofar ex hi a hitem hs ha ih =>
+    obtain ⟨news, h1, h2, h3⟩ := ih
+    refine ⟨a :: news, by rw [h1]; simp, by rw [h2]; simp, ?_⟩
+    intro b hb
+    simp only [List.mem_cons] at hb
+    rcases hb with hb | hb
+    · subst hb; exact ⟨ha, by simpa using hs⟩
+    · obtain ⟨g1, g2⟩ := h3 b hb
+      refine ⟨g1, ?_⟩
+      simp only [List.contains_cons, Bool.or_eq_false_iff] at g2
+      exact g2.2
+  | case3 nxt i sofar ex hi a hitem hs ha ih => exact ih
+  | case4 nxt i sofar ex hi hnr ih => exact ih
+  | case5 nxt i sofar ex hi => exact ⟨[], by simp, by simp, by simp⟩
+
+/-! ### evaluation of paths with wildcards -/
+
+/-- the ops `_t_eval` knows among access steps and wildcards -/
+def wfOps : List (String × Val) → Bool
+  | [] => true
+  | (op, _) :: r => (op == "." || op == "[" || op == "P" || op == "x" || op == "X") && wfOps r
+
+theorem accessStep_eq (cs : Classes) (h : Heap) (op : String) (cur arg : Val) :
+    accessStep cs h op cur arg =
+      match refAccess cs h op cur arg with
+      | some (.ok v) => .ok v
+      | some (.error e) => .error (.pae e)
+      | none => .error (.other "BadSpec") := by
+  unfold accessStep refAccess
+  by_cases h1 : (op == ".") = true
+  · simp only [h1, if_true]; rfl
+  · by_cases h2 : (op == "[") = true
+    · simp only [h1, h2, if_true, Bool.false_eq_true, if_false]; rfl
+    · by_cases h3 : (op == "P") = true
+      · simp only [h1, h2, h3, if_true, Bool.false_eq_true, if_false]; rfl
+      · simp only [h1, h2, h3, Bool.false_eq_true, if_false]
+
+def isPaeOrOk : Except EErr Res → Bool
+  | .ok _ => true
+  | .error (.pae _) => true
+  | .error (.other _) => false
+
+theorem collect_of_pae (l : List (Except EErr Res)) (hl : ∀ r ∈ l, isPaeOrOk r = true) :
+    collect l = .ok (keepOk l) := by
+  induction l with
+  | nil => rfl
+  | cons r l ih =>
+    have h1 := hl r (by simp)
+    have h2 := ih (fun r' hr' => hl r' (by simp [hr']))
+    cases r with
+    | ok v => simp [collect, keepOk, h2, Except.map]
+    | error e =>
+      cases e with
+      | pae x => simp [collect, keepOk, h2]
+      | other c => simp [isPaeOrOk] at h1
+
+/-- **refinement**: on steps made of access steps and wildcards the model's `_t_eval` computes the
+    reference evaluation — and never fails with anything but a PathAccessError -/
+theorem evalSteps_eq_refEval (cs : Classes) (h : Heap)
+    (hag : ∀ v, extendChildren cs h v = children cs h v) (steps : List (String × Val)) :
+    wfOps steps = true → ∀ cur, evalSteps cs h steps cur = refEval cs h steps cur ∧
+      isPaeOrOk (evalSteps cs h steps cur) = true := by
+  induction steps with
+  | nil => intro _ cur; simp [evalSteps, refEval, isPaeOrOk]
+  | cons s rest ih =>
+    obtain ⟨op, arg⟩ := s
+    intro hw cur
+    simp only [wfOps, Bool.and_eq_true] at hw
+    obtain ⟨hop, hrest⟩ := hw
+    have ihr := ih hrest
+    by_cases hx : (op == "x") = true
+    · simp only [evalSteps, refEval, hx, if_true]
+      have hl : ∀ r ∈ (starItems cs h cur).map (evalSteps cs h rest), isPaeOrOk r = true := by
+        intro r hr
+        obtain ⟨c, _, hc⟩ := List.mem_map.1 hr
+        rw [← hc]; exact (ihr c).2
+      rw [collect_of_pae _ hl]
+      have hm : (starItems cs h cur).map (evalSteps cs h rest) =
+          (children cs h cur).map (refEval cs h rest) := by
+        unfold starItems
+        rw [hag]
+        exact List.map_congr_left (fun c _ => (ihr c).1)
+      rw [hm]
+      simp [Except.map, isPaeOrOk]
+    · by_cases hX : (op == "X") = true
+      · simp only [evalSteps, refEval, hx, hX, if_true, Bool.false_eq_true, if_false]
+        have hl : ∀ r ∈ (starstarItems cs h cur).1.map (evalSteps cs h rest), isPaeOrOk r = true := by
+          intro r hr
+          obtain ⟨c, _, hc⟩ := List.mem_map.1 hr
+          rw [← hc]; exact (ihr c).2
+        rw [collect_of_pae _ hl]
+        have hd : (starstarItems cs h cur).1 = descend cs h cur := by
+          unfold starstarItems descend
+          simp only
+          rw [ssLoop_eq_bfs cs h hag, hag]
+          simp only [List.take_zero, List.drop_zero, List.nil_append]
+          cases cur <;> rfl
+        have hm : (starstarItems cs h cur).1.map (evalSteps cs h rest) =
+            (descend cs h cur).map (refEval cs h rest) := by
+          rw [hd]
+          exact List.map_congr_left (fun c _ => (ihr c).1)
+        rw [hm]
+        simp [Except.map, isPaeOrOk]
+      · simp only [evalSteps, refEval, hx, hX, Bool.false_eq_true, if_false]
+        rw [accessStep_eq]
+        have hacc : (refAccess cs h op cur arg).isSome = true := by
+          unfold refAccess
+          simp only [Bool.or_eq_true] at hop
+          rcases hop with (((h1 | h1) | h1) | h1) | h1
+          · simp [h1]
+          · by_cases h0 : (op == ".") = true <;> simp [h0, h1]
+          · by_cases h0 : (op == ".") = true <;> by_cases h2 : (op == "[") = true <;> simp [h0, h2, h1]
+          · exact absurd h1 hx
+          · exact absurd h1 hX
+        cases hr : refAccess cs h op cur arg with
+        | none => rw [hr] at hacc; simp at hacc
+        | some r =>
+          cases r with
+          | ok v => simp only; exact ihr v
+          | error e => simp [isPaeOrOk]
+
+/-! ### nesting and broadcast -/
+
+theorem keepOk_mem {l : List (Except EErr Res)} {r : Res} (h : r ∈ keepOk l) : .ok r ∈ l := by
+  induction l with
+  | nil => simp [keepOk] at h
+  | cons x l ih =>
+    cases x with
+    | ok v =>
+      simp only [keepOk, List.mem_cons] at h
+      rcases h with h | h
+      · subst h; simp
+      · simp [ih h]
+    | error e => simp only [keepOk] at h; simp [ih h]
+
+theorem stars_cons (op : String) (arg : Val) (rest : List (String × Val)) :
+    stars ((op, arg) :: rest) = (if op == "x" || op == "X" then 1 else 0) + stars rest := by
+  unfold stars
+  by_cases h : (op == "x" || op == "X") = true
+  · simp [List.filter_cons, h]; omega
+  · simp [List.filter_cons, h]
+
+/-- every wildcard adds exactly one level of list nesting -/
+theorem refEval_nested (cs : Classes) (h : Heap) (steps : List (String × Val)) :
+    ∀ cur r, refEval cs h steps cur = .ok r → nested (stars steps) r = true := by
+  induction steps with
+  | nil =>
+    intro cur r hr
+    simp only [refEval, Except.ok.injEq] at hr
+    subst hr; rfl
+  | cons s rest ih =>
+    obtain ⟨op, arg⟩ := s
+    intro cur r hr
+    rw [stars_cons]
+    by_cases hx : (op == "x") = true
+    · simp only [refEval, hx, if_true, Except.ok.injEq] at hr
+      subst hr
+      simp only [hx, Bool.true_or, if_true, Nat.add_comm 1, nested, List.all_eq_true]
+      intro r' hr'
+      obtain ⟨c, _, hc⟩ := List.mem_map.1 (keepOk_mem hr')
+      exact ih c r' hc
+    · by_cases hX : (op == "X") = true
+      · simp only [refEval, hx, hX, if_true, Bool.false_eq_true, if_false, Except.ok.injEq] at hr
+        subst hr
+        simp only [hX, Bool.or_true, if_true, Nat.add_comm 1, nested, List.all_eq_true]
+        intro r' hr'
+        obtain ⟨c, _, hc⟩ := List.mem_map.1 (keepOk_mem hr')
+        exact ih c r' hc
+      · simp only [refEval, hx, hX, Bool.false_eq_true, if_false] at hr
+        simp only [hx, hX, Bool.or_self, Bool.false_eq_true, if_false, Nat.zero_add]
+        cases ha : refAccess cs h op cur arg with
+        | none => rw [ha] at hr; simp at hr
+        | some a =>
+          cases a with
+          | ok v => rw [ha] at hr; exact ih v r hr
+          | error e => rw [ha] at hr; simp at hr
+
+theorem sumLists_nested (k : Nat) : ∀ xs : List Res, xs.all (nested (k + 1)) = true →
+    ∃ ys, sumLists xs = some ys ∧ ys.all (nested k) = true ∧
+      ys.flatMap (leaves k) = xs.flatMap (leaves (k + 1)) := by
+  intro xs
+  induction xs with
+  | nil => intro _; exact ⟨[], rfl, rfl, rfl⟩
+  | cons x xs ih =>
+    intro hx
+    simp only [List.all_cons, Bool.and_eq_true] at hx
+    obtain ⟨ys, h1, h2, h3⟩ := ih hx.2
+    cases x with
+    | val v => simp [nested] at hx
+    | list zs =>
+      have hz : zs.all (nested k) = true := by simpa [nested] using hx.1
+      refine ⟨zs ++ ys, by simp [sumLists, h1], by simp [List.all_append, hz, h2], ?_⟩
+      simp [List.flatMap_append, h3, leaves]
+
+theorem flattenN_nested : ∀ (n : Nat) (xs : List Res), xs.all (nested n) = true →
+    ∃ ys, flattenN n xs = some ys ∧ ys.all (nested 0) = true ∧
+      ys.flatMap (leaves 0) = xs.flatMap (leaves n) := by
+  intro n
+  induction n with
+  | zero => intro xs hx; exact ⟨xs, rfl, hx, rfl⟩
+  | succ n ih =>
+    intro xs hx
+    obtain ⟨ys, h1, h2, h3⟩ := sumLists_nested n xs hx
+    obtain ⟨zs, g1, g2, g3⟩ := ih ys h2
+    exact ⟨zs, by simp [flattenN, h1, g1], g2, by rw [g3, h3]⟩
+
+theorem forEach_vals (f : Heap → Val → Except MErr Heap) : ∀ (ys : List Res) (h : Heap),
+    ys.all (nested 0) = true → forEach f h ys = mutateAll f h (ys.flatMap (leaves 0)) := by
+  intro ys
+  induction ys with
+  | nil => intro h _; rfl
+  | cons y ys ih =>
+    intro h hy
+    simp only [List.all_cons, Bool.and_eq_true] at hy
+    cases y with
+    | list zs => simp [nested] at hy
+    | val d =>
+      simp only [forEach, List.flatMap_cons, leaves, List.singleton_append, mutateAll]
+      cases f h d with
+      | ok h' => exact ih h' hy.2
+      | error e => rfl
+
+/-- **broadcast**: `_apply_for_each` applies the operation to exactly the entries of the nested
+    result, in order, on one heap -/
+theorem applyForEach_eq (f : Heap → Val → Except MErr Heap) (k : Nat) (h : Heap) (r : Res)
+    (hn : nested k r = true) : applyForEach k f h r = mutateAll f h (leaves k r) := by
+  cases k with
+  | zero =>
+    cases r with
+    | list xs => simp [nested] at hn
+    | val d =>
+      simp only [applyForEach, beq_self_eq_true, if_true, leaves, mutateAll]
+      cases f h d <;> rfl
+  | succ n =>
+    cases r with
+    | val d => simp [nested] at hn
+    | list xs =>
+      have hx : xs.all (nested n) = true := by simpa [nested] using hn
+      obtain ⟨ys, h1, h2, h3⟩ := flattenN_nested n xs hx
+      simp only [applyForEach, Nat.add_one_ne_zero, beq_iff_eq, if_false, Nat.add_sub_cancel, h1, leaves]
+      rw [forEach_vals f ys h h2, h3]
+
+mutual
+theorem Res.beq_refl : ∀ r : Res, Res.beq r r = true
+  | .val v => by simp [Res.beq]
+  | .list xs => by simp only [Res.beq]; exact Res.beqList_refl xs
+theorem Res.beqList_refl : ∀ xs : List Res, Res.beqList xs xs = true
+  | [] => by simp [Res.beqList]
+  | x :: xs => by simp [Res.beqList, Res.beq_refl x, Res.beqList_refl xs]
+end
 
 end Glom.C14
